@@ -45,7 +45,8 @@ ASSUMPTIONS = [
 REACH = {t: ["versions_11", "enq_accepted", "enq_busy_then_ok", "enq_busy_exhausted", "enq_refused", "conf_success",
              "conf_fail", "conf_none", "conf_duplicate", "conf_other_tag", "conf_other_dest", "conf_unsolicited",
              "conf_before_reply", "conf_late", "setup_overlap_attempted", "kind_mcast", "kind_bcast", "kind_ieee",
-             "kind_uni_sr_et", "v14_layout", "pending_empty_checked", "status_family_swept", "conf_foreign_of_every_message_type", "disconnect_while_awaiting_confirmation"] for t in ("quick", "thorough")}
+             "kind_uni_sr_et", "v14_layout", "pending_empty_checked", "status_family_swept", "conf_foreign_of_every_message_type", "disconnect_while_awaiting_confirmation",
+             "fullstack_c12_judged", "fullstack_c12_confirmed_returns"] for t in ("quick", "thorough")}
 SHARD_TIMEOUT = {"quick": 900, "thorough": 3600}
 
 ENQ = ["ok", "busy_max", "busy_net", "busy_buf", "ref_call", "ref_down", "ref_undef"]
@@ -142,7 +143,10 @@ def gen_cases(tier, seed, V):
 
 def shards(tier, seed):
     per = 1 if tier == "quick" else 3
-    return [{"version": v, "tier": tier, "seed": seed, "k": k, "n": per} for v in range(4, 15) for k in range(per)]
+    from .. import fullstack
+
+    return [{"version": v, "tier": tier, "seed": seed, "k": k, "n": per} for v in range(4, 15) for k in range(per)] + \
+        fullstack.shard_descs(tier, seed)
 
 
 def run_shard(desc) -> Acc:
@@ -154,6 +158,12 @@ def run_shard(desc) -> Acc:
     logmode.apply(desc)
     acc = Acc()
     install_status_contract(acc)
+    if desc.get("part") == "fullstack":
+        # the same requests through the whole stack: real Gateway + AshProtocol over the faulty line, confirmations
+        # delayed, duplicated on the wire and retransmitted by ASH (rtmon/fullstack.py)
+        from .. import fullstack
+
+        return fullstack.run_shard_part(acc, PROPERTY, desc)
     V = desc["version"]
     APS_T = float(A.APS_ACK_TIMEOUT)
     DELAYS = [float(x) for x in A.RETRY_DELAYS]
